@@ -6,7 +6,11 @@ Model of the coroutine storage policies of cocls (C19):
 * `coro_storage.h`    — `reusable_storage`, `reusable_storage_mtsafe` (sequential view; the interleaving model is
   `StorageMt.lean`), `placement_alloc`, `reusable_buffer_storage<std::vector<Item>>`,
   `promise_extra_storage<T, Alloc>` (config field `extra = sizeof(T)`; `0` = no wrapper);
-* `alloca_storage.h`  — `stack_storage` (shared `state` variable, one buffer per object, flag byte).
+* `alloca_storage.h`  — `stack_storage` (shared `state` variable, one buffer per object, flag byte);
+* `coro_storage.h` again — `static_storage<space>` (own buffer, trailer pointer, heap fall-back behind an `assert`;
+  its `dealloc` is a non-static member, so it is driven through the raw API / an adapter that supplies the object),
+  and the move constructor / move assignment of `reusable_storage` (a second storage object `other` that may own a
+  block of its own: `moveOut`, `swapobj`).
 
 One machine, the policy is part of the configuration.  The heap is abstract: `operator new` returns a block with
 a fresh identity (`next`), `operator delete` removes it from `live` and is recorded in `dels` — deleting a block
@@ -64,6 +68,7 @@ inductive Policy where
   | stack (init : Nat)          -- initial value of the shared state variable
   | placement (bufsz : Nat)     -- size of the caller's buffer
   | buffer (itemsz : Nat)       -- `reusable_buffer_storage<std::vector<Item>>`, `itemsz = sizeof(Item)`
+  | static (space : Nat) (asserts : Bool)   -- `static_storage<space>`; `asserts`: built without `NDEBUG`
   deriving DecidableEq, Repr
 
 structure Cfg where
@@ -74,6 +79,7 @@ structure Cfg where
 /-- bytes the policy itself puts behind the frame: owner pointer (mtsafe), flag byte (stack) -/
 def trailer : Policy → Nat
   | .mtsafe => 8
+  | .static _ _ => 8
   | .stack _ => 1
   | _ => 0
 
@@ -99,6 +105,8 @@ structure State where
   sstate : Nat := 0            -- `stack_storage`: the shared state variable
   objs : List Nat := []        -- `stack_storage` objects: `_alloc_size` of each (= size of its buffer `ext k`)
   inventory : Option Nat := none   -- `promise_extra_storage::inventory`: the frame whose extra object it points to
+  optr : Option Nat := none    -- a second `reusable_storage` object (target / source of moves): its `_ptr`
+  ocap : Nat := 0              -- … and its `_capacity`
   -- ghost
   born : List Nat := []        -- frames created (= constructions of the extra object)
   died : List Nat := []        -- frames released (= destructions of the extra object)
@@ -110,7 +118,10 @@ inductive Op where
   | free (id : Nat)              -- the frame is destroyed: `Storage::dealloc(ptr, sz)`
   | newobj                       -- `stack_storage s(state); s = alloca(s);`
   | bufset (n : Nat)             -- the owner of the vector resizes it between two frames
-  | destroy                      -- destructor of the storage object (and of the vector)
+  | destroy                      -- destructor of the storage object(s) (and of the vector)
+  | moveOut                      -- `reusable_storage b(std::move(a))` into a re-constructed `other`, or `other = std::move(a)`;
+                                 -- the receiving object is the storage from now on, the moved-from one becomes `other`
+  | swapobj                      -- from now on the caller uses `other` (no move, both objects keep what they own)
   deriving DecidableEq, Repr
 
 inductive Res where
@@ -118,6 +129,7 @@ inductive Res where
   | free (id : Nat)
   | obj (k : Nat) (size : Nat)
   | unit
+  | rejected                     -- the library's `assert` fired: nothing happened
   | bad
   deriving DecidableEq, Repr
 
@@ -133,6 +145,7 @@ def State.ptrBlk (s : State) : Blk :=
 def State.extSize (s : State) (k : Nat) : Nat :=
   match s.cfg.pol with
   | .placement n => if k = 0 then n else 0
+  | .static n _ => if k = 0 then n else 0
   | .stack _ => s.objs.getD k 0
   | _ => 0
 
@@ -180,6 +193,14 @@ def allocStack (s : State) (k sz asz : Nat) : State :=
 def allocPlacement (s : State) (sz bufsz : Nat) : State :=
   addFrame { s with ok := s.ok && s.frames.isEmpty && decide (need s.cfg sz ≤ bufsz) } (Blk.ext 0) sz false
 
+/-- `static_storage::alloc`: the own buffer when frame + trailer fit, else (reachable only without the `assert`) a
+heap block; `dealloc` tells them apart by comparing with the buffer's address -/
+def allocStatic (s : State) (sz space : Nat) : State :=
+  if need s.cfg sz ≤ space then
+    addFrame { s with ok := s.ok && s.frames.all (fun f => f.blk != Blk.ext 0) } (Blk.ext 0) sz false
+  else
+    addFrame { s with heap := s.heap.new (need s.cfg sz) } (Blk.heap s.heap.next) sz true
+
 def bufResized (s : State) (itemsz sz : Nat) : State :=
   if s.vsize < (need s.cfg sz + itemsz - 1) / itemsz then vresize s itemsz ((need s.cfg sz + itemsz - 1) / itemsz) else s
 
@@ -199,6 +220,10 @@ def stepAlloc (s : State) (k sz : Nat) : State × Res :=
           Res.alloc s.nextFrame (if need s.cfg sz ≤ asz then Blk.ext k else Blk.heap s.heap.next))
   | .placement bufsz => (allocPlacement s sz bufsz, Res.alloc s.nextFrame (Blk.ext 0))
   | .buffer itemsz => (allocBuffer s sz itemsz, Res.alloc s.nextFrame (bufResized s itemsz sz).ptrBlk)
+  | .static space asserts =>
+      if asserts && decide (space < need s.cfg sz) then (s, Res.rejected)
+      else (allocStatic s sz space,
+          Res.alloc s.nextFrame (if need s.cfg sz ≤ space then Blk.ext 0 else Blk.heap s.heap.next))
 
 /-- what `dealloc` does with the memory: `operator delete` for a private heap block (decided by the trailer /
 flag byte), nothing otherwise; `reusable_storage_mtsafe` clears `_busy` when the trailer names an owner -/
@@ -228,8 +253,23 @@ def stepBufset (s : State) (n : Nat) : State × Res :=
 
 /-- `~reusable_storage()` / the vector's destructor: the own block is released; the other policies own nothing -/
 def stepDestroy (s : State) : State × Res :=
-  ({ s with heap := s.heap.delOpt s.ptr, ptr := none, cap := 0, vsize := 0, busy := false,
-            ok := s.ok && s.frames.isEmpty }, Res.unit)
+  ({ s with heap := (s.heap.delOpt s.optr).delOpt s.ptr, ptr := none, cap := 0, vsize := 0, busy := false,
+            optr := none, ocap := 0, ok := s.ok && s.frames.isEmpty }, Res.unit)
+
+/-- move construction (the old `other` is destroyed first, then re-constructed from the storage) and move assignment
+(`other = std::move(storage)`) have the same effect: whatever `other` owned is deleted, the block of the storage —
+including a frame that may live in it — now belongs to the receiving object, which is the storage from now on;
+the moved-from object is empty and plays `other` -/
+def stepMoveOut (s : State) : State × Res :=
+  match s.cfg.pol with
+  | .reusable => ({ s with heap := s.heap.delOpt s.optr, optr := none, ocap := 0 }, Res.unit)
+  | _ => (s, Res.bad)
+
+def stepSwapobj (s : State) : State × Res :=
+  match s.cfg.pol with
+  | .reusable => ({ s with ptr := s.optr, cap := s.ocap, optr := s.ptr, ocap := s.cap, vsize := 0,
+                           ok := s.ok && s.frames.isEmpty }, Res.unit)
+  | _ => (s, Res.bad)
 
 def step (s : State) (op : Op) : State × Res :=
   match op with
@@ -238,6 +278,8 @@ def step (s : State) (op : Op) : State × Res :=
   | Op.newobj => stepNewobj s
   | Op.bufset n => stepBufset s n
   | Op.destroy => stepDestroy s
+  | Op.moveOut => stepMoveOut s
+  | Op.swapobj => stepSwapobj s
 
 def run (s : State) (ops : List Op) : State := ops.foldl (fun s op => (step s op).1) s
 
